@@ -12,6 +12,7 @@ import DelaunayModel.Model.ProtoCx
 import DelaunayModel.Model.Judge
 import DelaunayModel.Model.Flip
 import DelaunayModel.Model.Cavity
+import DelaunayModel.Model.StarRemoval
 open DM
 
 structure Res where
@@ -218,6 +219,25 @@ def runCx (c : Case) : Res :=
             else if remS == "removed=0" then
               dis := s!"insertion under repair policy Never, no cells removed by local repair: the cell sets before/after are not a cavity or hull-extension step of the model ({why.take 300})" :: dis
             else stats := "cx.cavity.other_local_repair_or_unknown" :: stats
+        | none => pure ()
+      | _ => pure ()
+      -- ---------- C06 K1: a successful removal is a star removal of the model
+      -- rm <vertex id> repair=<0|1> <cells before>
+      match c.ob "rm" with
+      | some [vS, repS, preS] =>
+        let nums (t : String) : List Nat := (t.splitOn ",").filterMap String.toNat?
+        match vS.toNat? with
+        | some v =>
+          let pre := ((preS.splitOn ";").filter (· ≠ "")).map (fun t => sortNat (nums t))
+          let post := K.cells.map cellKey
+          if !(pre.any (·.contains v)) then stats := "cx.starrm.vertex_without_cells" :: stats
+          else
+          match starRemovalProblem pre post v with
+          | none => stats := "cx.starrm.legal_step" :: stats
+          | some why =>
+            -- a flip repair after the removal edits cells beyond the star: no claim there
+            if repS == "repair=1" then stats := "cx.starrm.other_after_flip_repair" :: stats
+            else dis := s!"removal under repair policy Never: the cell sets before/after are not a star removal of the model ({why.take 300})" :: dis
         | none => pure ()
       | _ => pure ()
       -- harness-side observations that must simply be 1 (computed on the Rust side from fingerprints)
